@@ -11,35 +11,56 @@ theorem sizeL_append (ks ls : List PT) : sizeL (ks ++ ls) = sizeL ks + sizeL ls 
 
 /-! ## pre_order -/
 
-def flatP (t : PT) : List Int := RT.flatten (abs t)
+/-- the sub-objects of `t` in recursive pre-order (`t` itself first) -/
+def subs : PT → List PT
+  | .node i v p ks => .node i v p ks :: (ks.map subs).flatten
 
-theorem flatP_eq (t : PT) : flatP t = t.val :: (t.kids.map flatP).flatten := by
-  cases t; simp [flatP, RT.flatten, List.map_map, Function.comp_def]; rfl
+theorem subs_eq (t : PT) : subs t = t :: (t.kids.map subs).flatten := by
+  cases t; simp [subs]
 
-theorem preLoop_eq : ∀ (f : Nat) (cur : PT) (st : List PT) (acc : List Int), cur.size + sizeL st ≤ f →
-    preLoop f cur st acc = .ok (acc ++ flatP cur ++ (st.map flatP).flatten)
+theorem foldl_push (l st : List PT) : l.foldl (fun s e => e :: s) st = l.reverse ++ st := by
+  induction l generalizing st with
+  | nil => rfl
+  | cons x xs ih => simp [ih]
+
+/-- pushing `rbegin() … prev(rend())` leaves the children after the first on the stack, the second one on top -/
+theorem pushRest_eq (c : PT) (rest st : List PT) : pushRest (c :: rest) st = rest ++ st := by
+  simp [pushRest, foldl_push]
+
+theorem preLoop_eq : ∀ (f : Nat) (cur : PT) (st : List PT) (acc : List PT), cur.size + sizeL st ≤ f →
+    preLoop f cur st acc = .ok (acc ++ subs cur ++ (st.map subs).flatten)
   | 0, cur, st, acc, h => by have := size_pos cur; omega
   | f + 1, .node i v p ks, st, acc, h => by
-    rw [flatP_eq]
+    rw [subs_eq]
     rw [size_node] at h
     cases ks with
     | cons c rest =>
-      simp only [preLoop, kids_node, val_node]
+      simp only [preLoop, kids_node, pushRest_eq]
       rw [preLoop_eq f c (rest ++ st) _ (by simp only [sizeL_cons, sizeL_append] at h ⊢; omega)]
       simp
     | nil =>
       cases st with
       | nil => simp [preLoop]
       | cons t st' =>
-        simp only [preLoop, kids_node, val_node]
+        simp only [preLoop, kids_node]
         rw [preLoop_eq f t st' _ (by simp only [sizeL_cons, sizeL_nil] at h ⊢; omega)]
         simp
 
+/-- the explicit-stack traversal visits exactly the sub-objects, in recursive pre-order -/
+theorem preNodes_eq (t : PT) : preNodes t = .ok (subs t) := by
+  unfold preNodes
+  rw [preLoop_eq t.size t [] [] (by simp)]
+  simp
+
+theorem map_val_subs : ∀ t : PT, (subs t).map PT.val = RT.flatten (abs t) :=
+  PT.ind (fun i v p ks ih => by
+    simp only [subs, List.map_cons, val_node, abs_node, RT.flatten, List.map_flatten, List.map_map]
+    congr 2
+    exact List.map_congr_left (fun k hk => by simpa using ih k hk))
+
 /-- the explicit-stack traversal yields the recursive pre-order sequence -/
 theorem preOrder_eq (t : PT) : preOrder t = .ok (RT.flatten (abs t)) := by
-  unfold preOrder
-  rw [preLoop_eq t.size t [] [] (by simp)]
-  simp [flatP]
+  simp [preOrder, preNodes_eq, Except.map, map_val_subs]
 
 /-! ## depth -/
 
